@@ -545,12 +545,18 @@ func loopIndexBound(idx ssa.Value) (string, bool) {
 	} else {
 		h = in.Block()
 	}
-	iff, ok := an.LastInstr(h).(*ssa.If)
-	if !ok {
-		return "", false
+	var b *ssa.BinOp
+	if iff, isIf := an.LastInstr(h).(*ssa.If); isIf {
+		if t, isBin := iff.Cond.(*ssa.BinOp); isBin && t.Op == token.LSS && an.Unwrap(t.X) == idx {
+			b = t
+		}
 	}
-	b, ok := iff.Cond.(*ssa.BinOp)
-	if !ok || b.Op != token.LSS || an.Unwrap(b.X) != idx {
+	if b == nil {
+		// the rotated form go/ssa gives `for i := range n`: no test in the counter's own block;
+		// every edge into it is the true edge of "incoming value < n", n one SSA value
+		b = rotatedLoopTest(idx)
+	}
+	if b == nil {
 		return "", false
 	}
 	// counter starts non-negative
@@ -587,6 +593,43 @@ func loopIndexBound(idx ssa.Value) (string, bool) {
 		bp = "(len(" + m[1] + ") - const:" + m[2] + ")"
 	}
 	return bp, true
+}
+
+// rotatedLoopTest: idx is a φ at the head of a loop body whose every incoming edge is the
+// true edge of a test "value arriving on that edge < bound" against one and the same SSA
+// value (`for i := range n`: "0 < n" before the loop, "i+1 < n" at its end). The test of
+// the first edge is returned; nil when some edge is not guarded so.
+func rotatedLoopTest(idx ssa.Value) *ssa.BinOp {
+	ph, isPhi := idx.(*ssa.Phi)
+	if !isPhi || len(ph.Edges) < 2 {
+		return nil
+	}
+	var first *ssa.BinOp
+	for i, pred := range ph.Block().Preds {
+		iff, isIf := an.LastInstr(pred).(*ssa.If)
+		if !isIf || len(pred.Succs) != 2 || pred.Succs[0] != ph.Block() || pred.Succs[1] == ph.Block() {
+			return nil
+		}
+		t, isBin := iff.Cond.(*ssa.BinOp)
+		if !isBin || t.Op != token.LSS {
+			return nil
+		}
+		same := an.Unwrap(t.X) == an.Unwrap(ph.Edges[i])
+		if !same {
+			k1, ok1 := an.ConstInt(t.X)
+			k2, ok2 := an.ConstInt(ph.Edges[i])
+			same = ok1 && ok2 && k1 == k2
+		}
+		if !same {
+			return nil
+		}
+		if first == nil {
+			first = t
+		} else if an.Unwrap(first.Y) != an.Unwrap(t.Y) {
+			return nil
+		}
+	}
+	return first
 }
 
 func normLenOfTail(p string) string {
